@@ -378,12 +378,22 @@ class SymCtx:
             ang = math.atan2(sv, cv)
             model_angle = float(q) * out[name] + float(const)
             lo, hi = getattr(self.ex, "input_bounds", {}).get(name, (None, None))
+            # tokens of the sub-angles (atom / n) pick the turn
+            subs = []
+            for (k2, n2), (c2, s2) in self.ex.subatoms.items():
+                if k2 == k:
+                    try:
+                        subs.append((n2, core.z3num_to_float(m.eval(c2, model_completion=True)), core.z3num_to_float(m.eval(s2, model_completion=True))))
+                    except Exception:
+                        pass
             best = None
-            for kk in range(-4, 5):
+            for kk in range(-12, 13):
                 cand = (ang + kk * core.TAU - float(const)) / float(q)
                 if (lo is not None and cand < lo) or (hi is not None and cand > hi):
                     continue
-                d = abs(cand - out[name])
+                av = ang + kk * core.TAU
+                miss = sum(abs(math.cos(av / n2) - c2v) + abs(math.sin(av / n2) - s2v) for n2, c2v, s2v in subs)
+                d = (round(miss, 6), abs(cand - out[name]))
                 if best is None or d < best[0]:
                     best = (d, cand)
             if best is not None:
